@@ -261,6 +261,16 @@ def flags_probe(dmi, dme, strategy, seq):
     return obs
 
 
+def sticky_key(observed, alone):
+    """the signature of the sticky `or`: the multi-exon requirement of every experiment is its own, and a 2-exon / mono-exon flag differs from the stand-alone value only by
+       being on where an earlier experiment of the sequence had it on"""
+    for k, (o, a) in enumerate(zip(observed, alone)):
+        if o is None or a is None or o[0] != a[0]: return None
+        for i in (1, 2):
+            if o[i] != a[i] and not (o[i] and not a[i] and any(p[i] for p in observed[:k])): return None
+    return "C10:sticky-polya-flags"
+
+
 def flags_variant():
     """True when the checked-out process_sample derives the flags from the strategy defaults (fixes/C10_sticky_flags.diff), False when they are sticky"""
     return flags_probe(False, False, "auto", [(100, 90), (100, 20)])[1] == (False, False, False)
@@ -278,13 +288,15 @@ def flags_unit(ctx, quick):
                     try: obs = flags_probe(dmi, dme, st, seq)
                     except Exception as e:
                         ctx.violation(None, "process_sample raises %s" % type(e).__name__, {"defaults": [dmi, dme], "strategy": st, "polyA (total, found)": seq, "error": repr(e)[:300]}); continue
+                    alone = [flags_probe(dmi, dme, st, [x])[0] for x in seq] if len(seq) > 1 else list(obs)
                     cases.append(("(%s, %s, %d, %s, %s)" % (cbool(dmi), cbool(dme), si, clist(highs, cbool), clist(obs, lambda o: "(%s, %s, %s)" % tuple(map(cbool, o)))),
-                                  {"strategy defaults (2-exon, mono-exon)": [dmi, dme], "polya_requirement": st, "experiments (total assignments, with polyA)": seq, "observed flags": obs}))
+                                  {"strategy defaults (2-exon, mono-exon)": [dmi, dme], "polya_requirement": st, "experiments (total assignments, with polyA)": seq, "observed flags": obs,
+                                   "stand-alone flags": alone}))
     vf = flags_variant()
     ctx.notes.append("process_sample flags: the checked-out code behaves like the %s model" % ("repaired" if vf else "current (sticky or)"))
     pre = PRE + "Definition check := check_flags %s.\nDefinition prop := prop_flags.\n" % cbool(vf)
     mism, viol = ctx.corr("process_sample_flags", pre, cases, shard=200, nontrivial=lambda o: len(o["observed flags"]) > 1, ctype="flagcase")
-    ctx.corr_report("process_sample_flags", mism, viol, keyfn=lambda o: "C10:sticky-polya-flags",
+    ctx.corr_report("process_sample_flags", mism, viol, keyfn=lambda o: sticky_key(o["observed flags"], o["stand-alone flags"]),
                     what="DatasetProcessor.process_sample: polyA requirement flags of an experiment depend on the experiments processed before it")
     ctx.rule("process_sample flags: the real DatasetProcessor.process_sample with reading / model construction stubbed, all sequences of 1-4 experiments with polyA fraction above / "
              "below the 0.7 threshold (incl. exactly 0.7, 0.699, zero assignments) x polya_requirement auto/never/always x the four (2-exon, mono-exon) strategy defaults = %d "
@@ -518,14 +530,16 @@ def pipeline(ctx, quick):
                     elif "grouped" in f and f not in A and j.get("replicas") and len(EXP[n][0]) == 1:
                         causes.setdefault("C10:replicas-group-all-experiments", []).append((f, what))
                     elif any(m in f for m in MODEL_FILES):
-                        hit = False
-                        if mflags.get(n) != aflags: causes.setdefault("C10:sticky-polya-flags", []).append((f, what)); hit = True
                         lost = set(t for c in aknown for t in c) - set(t for c in mknown for t in c)
-                        if j["threads"] == 1 and lost and lost <= prev_known: causes.setdefault("C10:detected-known-isoforms", []).append((f, what)); hit = True
-                        if not hit and f in A and f in B and f.endswith("_counts.tsv") and na == prev_unmapped + unm and prev_unmapped > 0 and \
+                        if mflags.get(n) != aflags:
+                            key = sticky_key([mflags.get(x) for x in seq[:i + 1]], [dict(log_flags(open(os.path.join(alone[(x, opt)]["out"], "isoquant.log")).read()))[x] for x in seq[:i + 1]])
+                            if key: causes.setdefault(key, []).append((f, what))
+                            else: unexplained.append((f, what))
+                        elif j["threads"] == 1 and lost and lost <= prev_known: causes.setdefault("C10:detected-known-isoforms", []).append((f, what))
+                        elif f in A and f in B and f.endswith("_counts.tsv") and na == prev_unmapped + unm and prev_unmapped > 0 and \
                                 [l for l in A[f].splitlines() if not l.startswith("__")] == [l for l in B[f].splitlines() if not l.startswith("__")]:
-                            causes.setdefault("C10:unaligned-accumulates", []).append((f, what)); hit = True
-                        if not hit: unexplained.append((f, what))
+                            causes.setdefault("C10:unaligned-accumulates", []).append((f, what))
+                        else: unexplained.append((f, what))
                     else: unexplained.append((f, what))
                 texts = {"C10:unaligned-accumulates": "the __not_aligned line of experiment %s counts the unaligned reads of the experiments processed before it (%s instead of %d)" % (n, na, unm),
                          "C10:sticky-polya-flags": "experiment %s is processed with the polyA requirement flags left by an earlier experiment (%s instead of %s): different transcript models" % (n, mflags.get(n), aflags),
